@@ -34,11 +34,32 @@ TH_1EM6 = "4722366482869645:-72"       # the double nearest to 1e-6
 TH_01 = "3602879701896397:-55"         # the double nearest to 0.1
 
 
-def translate(ctx):
-    spec = importlib.util.spec_from_file_location("translate_tsne", os.path.join(vlib.ROOT, "tools", "translate_tsne.py"))
+def _load(name):
+    spec = importlib.util.spec_from_file_location(name, os.path.join(vlib.ROOT, "tools", name + ".py"))
     mod = importlib.util.module_from_spec(spec)
     spec.loader.exec_module(mod)
-    vlib.write_if_changed(os.path.join(vlib.LEAN_DIR, "TapkeeVerif", "Gen", "TsneOps.lean"), mod.generate(vlib.REPO))
+    return mod
+
+
+SOURCE = {"kMult": Fraction(3)}     # what the source says (filled by translate); the SPEC value is 3
+
+
+def translate(ctx):
+    ops = _load("translate_tsne")
+    run = _load("translate_tsne_run")
+    try:
+        vlib.write_if_changed(os.path.join(vlib.LEAN_DIR, "TapkeeVerif", "Gen", "TsneOps.lean"), ops.generate(vlib.REPO))
+        text = run.generate(vlib.REPO)
+    except (run.UnknownShape, ops.UnknownShape) as ex:
+        # the source has a shape the translator does not know: not evidence of a defect, the tie has to be re-established
+        ctx.broken("translator:unknown-shape", "tools/translate_tsne*.py (Gen/TsneOps.lean, Gen/TsneRun.lean)",
+                   "the t-SNE sources have a shape the translator does not recognise (%s); the generated tables were left as they "
+                   "were — teach the translator the new shape" % ex)
+        return
+    vlib.write_if_changed(os.path.join(vlib.LEAN_DIR, "TapkeeVerif", "Gen", "TsneRun.lean"), text)
+    import re
+    m = re.search(r"def kMult : Nat × Nat := \((\d+), (\d+)\)", text)
+    SOURCE["kMult"] = Fraction(int(m.group(1)), int(m.group(2)))
 
 
 # ----------------------------------------------------------------------------- numbers
@@ -132,8 +153,9 @@ def c_gpk(r):
     if r.chance(1, 4):
         d = r.range(1, 2)
         pts = tight_clusters(r, d)
-        return "gpk N=%d D=%d X=%s perp=%s K=%d rnd=%s" % (len(pts), d, fmts(flat(pts)), fmt(Fraction(2)), 6,
-                                                          ",".join(str(r.below(1 << 20)) for _ in range(8)))
+        return "gpk N=%d D=%d X=%s perp=%s K=%d Kspec=%d rnd=%s" % (len(pts), d, fmts(flat(pts)), fmt(Fraction(2)),
+                                                                    int(SOURCE["kMult"] * 2), 6,
+                                                                    ",".join(str(r.below(1 << 20)) for _ in range(8)))
     while True:
         d = r.choice([1, 1, 2])
         n = r.range(5, 14)
@@ -149,9 +171,11 @@ def c_gpk(r):
         if perps:
             break
     perp = r.choice(perps)
-    k = int(3 * perp)
-    return "gpk N=%d D=%d X=%s perp=%s K=%d rnd=%s" % (n, d, fmts(flat(pts)), fmt(perp), k,
-                                                      ",".join(str(r.below(1 << 20)) for _ in range(8)))
+    # K as TSNE::run computes it — `(int)(kMult * perplexity)` with the multiplier read from the source —, and the K the
+    # property demands (floor(3 * perplexity)) for the oracle
+    k = int(SOURCE["kMult"] * perp)
+    return "gpk N=%d D=%d X=%s perp=%s K=%d Kspec=%d rnd=%s" % (n, d, fmts(flat(pts)), fmt(perp), k, int(3 * perp),
+                                                                ",".join(str(r.below(1 << 20)) for _ in range(8)))
 
 
 def c_vps(r, big=False):
@@ -216,6 +240,29 @@ def c_bhg(r, d=2):
                                                                    fmts(vals) if vals else "", fmts(flat(Y)), th)
 
 
+def c_run(r, bh):
+    """the real TSNE::run on a tiny input, observed through its progress log (error value + map snapshot at the logged
+    iterations); generic dyadic data without distance ties, replayed Gaussian stream"""
+    while True:
+        n = r.range(7, 9) if bh else r.range(4, 6)
+        d = r.range(1, 3)
+        pts = distinct_points(r, n, d, lambda: dy(r.range(-24, 24), -3))
+        n = len(pts)
+        ok = True
+        for i, p in enumerate(pts):
+            ds = [sum((a - b) ** 2 for a, b in zip(p, q)) for j, q in enumerate(pts) if j != i]
+            if len(set(ds)) != len(ds):
+                ok = False
+        if ok and n >= (7 if bh else 4):
+            break
+    perp = Fraction(2) if bh else r.choice([Fraction(3, 2), Fraction(2)])
+    if not bh and perp >= n - 1:
+        perp = Fraction(3, 2)
+    g = [dy(r.range(-40, 40), -4) for _ in range(2 * n)]
+    return "run N=%d D=%d X=%s perp=%s theta=%s dim=2 g=%s at=50,250,300" % (
+        n, d, fmts(flat(pts)), fmt(perp), "1:-1" if bh else "0", fmts(g))
+
+
 def c_api(r, dim=2, theta="1:-1"):
     m = r.range(18, 24)          # below ~15 points per cluster the optimiser (eta = 200) is outside its working regime
     d = r.range(2, 4)
@@ -260,8 +307,7 @@ ORACLES = {
             ("gauss", "perplexity-knn:not-gaussian", "a sparse row is not a Gaussian kernel of the true squared distances")],
     "sym": [("symm", "symmetrize:not-symmetric", "symmetrizeMatrix output is not symmetric"),
             ("half", "symmetrize:not-half-sum", "symmetrizeMatrix entry is not (p_nm + p_mn)/2"),
-            ("tot", "symmetrize:total", "symmetrizeMatrix does not preserve the total mass"),
-            ("one", "symmetrize:not-normalised", "the normalised symmetric matrix does not sum to one")],
+            ("tot", "symmetrize:total", "symmetrizeMatrix does not preserve the total mass")],
     "vps": [("knn", "vptree-search-misses-neighbour",
              "tsne::VpTree::search does not return the k nearest items (pruning with the triangle inequality on squared distances)")],
     "exg": [("grad", "exact-gradient-formula",
@@ -269,6 +315,10 @@ ORACLES = {
             ("fd", "exact-gradient-finite-difference",
              "4*computeExactGradient differs from central finite differences of KL(P||Q) (test-level check)")],
     "bhg": [("bh0", "bh-gradient-theta0", "computeGradient at theta = 1e-6 differs from the exact gradient formula")],
+    "run": [("spec", "run:joint-distribution-or-schedule",
+             "the error values TSNE::run logs (iterations 50, 250, 300) are not those of the specified run: joint similarities "
+             "symmetrised and summing to one (over floor(3*perplexity) neighbours in the Barnes-Hut branch), exaggerated by 12 "
+             "up to iteration 250 and not afterwards")],
     "api": [("centred", "api:not-centred", "the returned map is not centred"),
             ("pure", "api:cluster-separation", "two well-separated clusters are mixed in the returned map (test-level check)")],
 }
@@ -335,7 +385,7 @@ def drop_points(line, keep):
         return None
     if topic == "gpd" and m < 3:
         return None
-    order = [k for k in ("N", "D", "X", "perp", "K", "k", "rnd", "q") if k in f2]
+    order = [k for k in ("N", "D", "X", "perp", "K", "Kspec", "k", "rnd", "q") if k in f2]
     return topic + " " + " ".join("%s=%s" % (k, f2[k]) for k in order)
 
 
@@ -375,6 +425,11 @@ def judge(ctx, binary, lines, label, do_shrink=True, timeout=300):
                 ctx.stat("comparisons-skipped-near-tie", int(parts[2][1:]))
         elif c.startswith("skip"):
             ctx.stat("comparison-" + c.replace(":", "-"))
+        if topic == "run" and " theta=0 " in line and m.get("dyn") in ("ok",) :
+            ctx.stat("run-dynamics-agree")
+        elif topic == "run" and " theta=0 " in line and m.get("dyn", "").startswith("BAD"):
+            ctx.stat("run-dynamics-diverged")
+            ctx.extra.setdefault("_dyn_example", (line, io, mo))
         if topic == "vps" and "fid" in m:
             a, b = m["fid"].split("/")
             ctx.stat("vptree-result-ids-identical", int(a))
@@ -454,12 +509,26 @@ def correspond(ctx):
             ("exg", lambda: c_exg(r.fork(), fd=False), 80, 1500),
             ("exg-fd", lambda: c_exg(r.fork(), fd=True), 10, 200),
             ("bhg", lambda: c_bhg(r.fork()), 120, 3000),
-            ("bhg-dims", lambda: c_bhg(r.fork(), d=r.choice([1, 3])), 6, 60)]
+            ("bhg-dims", lambda: c_bhg(r.fork(), d=r.choice([1, 3])), 6, 60),
+            ("run-exact", lambda: c_run(r.fork(), bh=False), 10, 150),
+            ("run-bh", lambda: c_run(r.fork(), bh=True), 8, 100)]
     for name, gen, nq, nt in plan:
         ctx.log("stage", name)
         lines = [gen() for _ in range(nq if quick else nt)]
         for i in range(0, len(lines), 200):
             judge(ctx, binary, lines[i:i + 200], name)
+    # the optimiser of TSNE::run vs the model after 51 iterations (exact branch; the trajectories of such tiny maps are
+    # chaotic — a few per cent of the cases diverge through rounding alone —, so this is judged over the whole stage:
+    # a wrong learning constant makes every case diverge)
+    dist = ctx.extra.get("distribution", {})
+    agree, div = dist.get("run-dynamics-agree", 0), dist.get("run-dynamics-diverged", 0)
+    if agree + div >= 4 and div > agree:
+        ex = ctx.extra.get("_dyn_example", ("", "", ""))
+        ctx.broken("corr:run-dynamics", "correspondence c17_tsne (optimiser of TSNE::run)",
+                   "the map after 51 iterations of the real TSNE::run differs from the model's optimiser (gains / momentum / update / "
+                   "centring, replayed from the same Gaussian stream) in %d of %d cases" % (div, agree + div),
+                   case=ex[0], detail={"impl": ex[1][:1500], "model": ex[2][:1500]})
+    ctx.extra.pop("_dyn_example", None)
     # public API (test level) — includes target_dimension = 1 with theta > 0
     th.join()
     if not api.get("bin"):
